@@ -207,6 +207,51 @@ func runC13(c *Ctx) {
 	}
 	ent := entriesD + "["
 	labels, _ := fi.mustPassBetween([]int{loop.Body.Index}, map[int]bool{loop.Header.Index: true})
+	sc := &c13Scope{fn: G, fi: fi, loop: loop, labels: labels}
+	typeX, pathX := typeP, pathD
+	// the certificates one entry contributes, as the loader sees them
+	var entryCall *ssa.Call
+	if len(findCalls(G, "core/x509.ReadCertificateFile")) == 0 {
+		// the entry is handed to an unexported helper that reads the file; the iteration completes only if it succeeds
+		for _, ci := range allCalls(G) {
+			call, ok := ci.(*ssa.Call)
+			if !ok || !loopBlocks(loop.Header)[call.Block().Index] {
+				continue
+			}
+			g := staticCallee(call)
+			if g == nil || g.Blocks == nil || !w.IsProductFn(g) || len(findCalls(g, "core/x509.ReadCertificateFile")) == 0 || len(g.Params) != len(call.Call.Args) {
+				continue
+			}
+			if !labelHas(labels, "EQ("+descTailErr(call)+",nil)") {
+				continue
+			}
+			entryCall = call
+			entX := ""
+			typeX, pathX = "", ""
+			for k, a := range call.Call.Args {
+				pd := "param:" + g.Params[k].Name()
+				switch d := desc(a); {
+				case d == typeP:
+					typeX = pd
+				case d == pathD:
+					pathX = pd
+				case strings.HasPrefix(d, ent):
+					entX = pd
+				}
+			}
+			sg := w.Summarize(g, m)
+			c.Evals += sg.States
+			c.SeenFn(g.String())
+			sc = &c13Scope{fn: g, fi: w.Info(g), labels: sg.Checked}
+			ent = entX
+			if entX == "" || pathX == "" {
+				c.Bad("entry/helper", "the per-entry helper receives the directory entry and the store path", w.InstrPos(call), "arguments: "+desc(call))
+				return
+			}
+		}
+	}
+	labels = sc.labels
+	lsite = sc.site(w)
 	hasIt := func(subs ...string) bool { _, ok := hasLabel(labels, subs...); return ok }
 	// regular file judged on the entry itself
 	formA := hasIt("F(call:invoke:os.DirEntry.IsDir("+ent) && hasIt("EQ((call:invoke:os.DirEntry.Type("+ent, "& const:134217728),const:0)")
@@ -226,7 +271,7 @@ func runC13(c *Ctx) {
 		"a sub-directory or a symlink to a certificate file is accepted; per-iteration facts: "+summarizeLabels(labels, 8))
 	// read
 	var read *ssa.Call
-	for _, ci := range allCalls(G) {
+	for _, ci := range allCalls(sc.fn) {
 		if call, ok := ci.(*ssa.Call); ok && calleeName(call) == "core/x509.ReadCertificateFile" {
 			read = call
 		}
@@ -237,8 +282,13 @@ func runC13(c *Ctx) {
 	}
 	rd := desc(read)
 	c.slot(hasIt("EQ("+rd+"#err,nil)"), 1, "entry/read-error", "per entry: read error fail-closed", lsite, "")
-	wantPath := "call:path/filepath.Join({" + pathD + ",call:invoke:os.DirEntry.Name(" + ent
-	c.Check(strings.HasPrefix(desc(read.Call.Args[0]), wantPath), "exact-set/file-path", "the file read is Join(store path, entry.Name()) of this entry", w.InstrPos(read), "ReadCertificateFile receives "+desc(read.Call.Args[0]))
+	okPath := false
+	for _, dn := range []string{"os.DirEntry", "io/fs.DirEntry"} {
+		if strings.HasPrefix(desc(read.Call.Args[0]), "call:path/filepath.Join({"+pathX+",call:invoke:"+dn+".Name("+ent) {
+			okPath = true
+		}
+	}
+	c.Check(okPath, "exact-set/file-path", "the file read is Join(store path, entry.Name()) of this entry", w.InstrPos(read), "ReadCertificateFile receives "+desc(read.Call.Args[0]))
 	certs := rd + "#0"
 	// at least one certificate per file
 	okLen := false
@@ -249,7 +299,7 @@ func runC13(c *Ctx) {
 	}
 	c.slot(okLen, 1, "entry/at-least-one-certificate", "per entry: the file holds at least one certificate", lsite, "an empty file is skipped silently")
 	// every certificate CA or self-signed
-	okCA, caSite := c13CertLoop(c, G, loop, certs, func(el string) EdgeSel {
+	okCA, caSite := c13CertLoop(c, sc, certs, func(el string) EdgeSel {
 		return matchOf(pre("T("+el, ".IsCA)"), pre("EQ(call:(*crypto/x509.Certificate).CheckSignature("+strings.TrimSuffix(el, "["), "#err,nil)"))
 	}, 2)
 	c.slot(okCA, 1, "entry/ca-or-self-signed", "per entry: every certificate of the file is a CA certificate or self-signed (disjunctive gate inside a loop over all certificates, not bypassable)", caSite, "a leaf certificate that is not self-signed is accepted")
@@ -264,38 +314,53 @@ func runC13(c *Ctx) {
 	}
 	okTSA := false
 	tsaSite := lsite
-	if rootFn != "" {
-		// under type == tsa the iteration completes only through a loop over all certificates gated by the root check
-		notTSA := matchOf(pre("NE(" + typeP + fmt.Sprintf(",const:%q)", tsaC)))
+	if rootFn != "" && typeX != "" {
+		// under type == tsa the entry completes only through a loop over all certificates gated by the root check
+		notTSA := matchOf(pre("NE(" + typeX + fmt.Sprintf(",const:%q)", tsaC)))
 		var inner *loopRef
-		for _, l := range allLoops(G) {
+		for _, l := range allLoops(sc.fn) {
 			l := l
-			if desc(l.X) == certs && loopBlocks(loop.Header)[l.Header.Index] {
-				il, _ := fi.mustPassBetween([]int{l.Body.Index}, map[int]bool{l.Header.Index: true})
+			if desc(l.X) == certs && sc.contains(l.Header) {
+				il, _ := sc.fi.mustPassBetween([]int{l.Body.Index}, map[int]bool{l.Header.Index: true})
 				if _, h := hasLabel(il, "EQ(call:"+rootFn+"("+certs+"[", "#err,nil)"); h {
 					inner = &l
 				}
 			}
 		}
 		if inner != nil {
-			cut := fi.edgesMatching(notTSA)
-			cutInto(fi, inner.Header, cut)
-			if !fi.reachHit([]state{{loop.Body.Index, 0, -1}}, cut, map[int]bool{loop.Header.Index: true}) {
+			cut := sc.fi.edgesMatching(notTSA)
+			cutInto(sc.fi, inner.Header, cut)
+			if sc.blocked(cut) {
 				okTSA = true
 				tsaSite = w.InstrPos(blockTerm(inner.Header))
 			}
 		}
 	}
-	if !okTSA && rootFn != "" {
+	if !okTSA && rootFn != "" && typeX != "" {
 		// alternative shape: inside a non-bypassable loop over all certificates each iteration passes (type != tsa) or root(cert) err == nil
-		ok2, site2 := c13CertLoop(c, G, loop, certs, func(el string) EdgeSel {
-			return matchOf(pre("NE("+typeP+fmt.Sprintf(",const:%q)", tsaC)), pre("EQ(call:"+rootFn+"("+el, "#err,nil)"))
+		ok2, site2 := c13CertLoop(c, sc, certs, func(el string) EdgeSel {
+			return matchOf(pre("NE("+typeX+fmt.Sprintf(",const:%q)", tsaC)), pre("EQ(call:"+rootFn+"("+el, "#err,nil)"))
 		}, 2)
 		if ok2 {
 			okTSA, tsaSite = true, site2
 		}
 	}
 	c.slot(okTSA, 1, "entry/tsa-roots", "per entry of a tsa store: every certificate is a self-signed root", tsaSite, "a non-root certificate is accepted into a tsa store")
+	if entryCall != nil {
+		// what the helper hands back on success is what it read, and that is what the loader sees as this entry's certificates
+		okBack := true
+		for _, ex := range w.Summarize(sc.fn, m).Exits {
+			if e, ok := ex.Ret.Results[0].(*ssa.Extract); !ok || e.Tuple != ssa.Value(read) || e.Index != 0 {
+				okBack = false
+			}
+		}
+		c.Check(okBack, "exact-set/helper-returns-what-it-read", "the per-entry helper returns exactly the certificates it read from the entry's file", w.FnPos(sc.fn), "a success exit returns something else")
+		for _, r := range *entryCall.Referrers() {
+			if e, ok := r.(*ssa.Extract); ok && e.Index == 0 {
+				certs = desc(e)
+			}
+		}
+	}
 	// (b) exact set
 	okApp, nApp := true, 0
 	for _, ci := range allCalls(G) {
@@ -336,13 +401,45 @@ func runC13(c *Ctx) {
 	c.MinCount("", 20, "trust store obligations")
 }
 
+// c13Scope: where one directory entry is processed — the body of the entries loop, or an unexported helper the loop hands
+// the entry to and whose success every completed iteration requires. The per-entry rules are the same in both; only the
+// frame in which values are written differs (loop: the loader's; helper: the helper's parameters).
+type c13Scope struct {
+	fn     *ssa.Function
+	fi     *FnInfo
+	loop   *loopRef // nil: the whole helper
+	labels map[string]string
+}
+
+// blocked: with the cut edges removed, the entry cannot be completed successfully.
+func (sc *c13Scope) blocked(cut map[edgeKey]bool) bool {
+	if sc.loop != nil {
+		return !sc.fi.reachHit([]state{{sc.loop.Body.Index, 0, -1}}, cut, map[int]bool{sc.loop.Header.Index: true})
+	}
+	return sc.fi.successWitness(Mode{Kind: mErr}, entryState(), cut) == nil
+}
+
+func (sc *c13Scope) contains(b *ssa.BasicBlock) bool {
+	if sc.loop != nil {
+		return loopBlocks(sc.loop.Header)[b.Index]
+	}
+	return true
+}
+
+func (sc *c13Scope) site(w *World) string {
+	if sc.loop != nil {
+		return w.InstrPos(blockTerm(sc.loop.Header))
+	}
+	return w.FnPos(sc.fn)
+}
+
 // c13CertLoop: on every completed entry iteration a loop over all elements of
 // certs is traversed whose own iterations complete only through the selected
 // gate. The loop may be in G or in a module function called with certs whose
 // success gates the iteration.
-func c13CertLoop(c *Ctx, G *ssa.Function, entryLoop *loopRef, certs string, gate func(el string) EdgeSel, minEdges int) (bool, string) {
+func c13CertLoop(c *Ctx, sc *c13Scope, certs string, gate func(el string) EdgeSel, minEdges int) (bool, string) {
 	w := c.W
-	fi := w.Info(G)
+	G, fi := sc.fn, sc.fi
 	// a per-certificate helper whose success requires the gate on its parameter
 	helperOK := func(g *ssa.Function) bool {
 		if g == nil || g.Blocks == nil || !w.IsProductFn(g) || len(g.Params) != 1 {
@@ -377,10 +474,10 @@ func c13CertLoop(c *Ctx, G *ssa.Function, entryLoop *loopRef, certs string, gate
 		return nil, false
 	}
 	// inline in G
-	if l, ok := check(G, certs); ok && loopBlocks(entryLoop.Header)[l.Header.Index] {
+	if l, ok := check(G, certs); ok && sc.contains(l.Header) {
 		cut := map[edgeKey]bool{}
 		cutInto(fi, l.Header, cut)
-		if !fi.reachHit([]state{{entryLoop.Body.Index, 0, -1}}, cut, map[int]bool{entryLoop.Header.Index: true}) {
+		if sc.blocked(cut) {
 			return true, w.InstrPos(blockTerm(l.Header))
 		}
 	}
@@ -409,14 +506,13 @@ func c13CertLoop(c *Ctx, G *ssa.Function, entryLoop *loopRef, certs string, gate
 			if gfi.successWitness(Mode{Kind: mErr}, entryState(), cut) != nil {
 				continue
 			}
-			labels, _ := fi.mustPassBetween([]int{entryLoop.Body.Index}, map[int]bool{entryLoop.Header.Index: true})
-			if labelHas(labels, "EQ("+descTailErr(call)+",nil)") {
+			if labelHas(sc.labels, "EQ("+descTailErr(call)+",nil)") {
 				c.SeenFn(g.String())
 				return true, w.InstrPos(blockTerm(l.Header))
 			}
 		}
 	}
-	return false, w.InstrPos(blockTerm(entryLoop.Header))
+	return false, sc.site(w)
 }
 
 // c13Root: the root check requires a self-signature and equal subject/issuer.
